@@ -7,8 +7,11 @@ xtuml.ModelLoader) + a generated OAL program + keyword arguments, run through
   reference   lean/PyxModel/Interp/Spec.lean (`Spec`): the definitional big-step interpreter over a plain relational
               state.  The program is parsed by the real `bridgepoint.oal.parse`; the syntax tree goes to the Lean driver
               as an s-expression (harness/oal_sexp.py).  `Spec` also DECIDES the domain: a program on which it reports
-              an error (unset variable, type error, division by zero, deleted instance used, multiplicity-violating
-              relate, unrelate of unrelated instances ...) or exhausts its fuel is dropped and counted, never run.
+              an error (unset variable, type error, deleted instance used, multiplicity-violating relate, unrelate of
+              unrelated instances ...) or exhausts its fuel is dropped and counted, never run.  ONE error is compared
+              instead: where `Spec` ends in "division by zero" (`/` or `%` with a zero divisor) the interpreter has to
+              end in ZeroDivisionError (and not in a value).  Without the Lean driver there is no reference: `generate`
+              raises (a harness error), it never yields a case without an expectation.
   D = K       the property is the equivalence with the reference: return value and final canonical population
               (instances per class in creation order with attribute values, both navigation directions of every
               association in link order, the id generator) equal `Spec`'s.  `generate` obtains `Spec`'s answer from the
@@ -20,16 +23,17 @@ import oal_sexp
 from sexp import Sym, dumps, loads
 
 PROP = 'C04'
-RULE = ('type-directed random OAL programs (quick: 4000 programs, <= 25 generated statements, nesting <= 3; thorough: 40000, '
+RULE = ('type-directed random OAL programs (quick: 3000 programs, <= 25 generated statements, nesting <= 3; thorough: 40000, '
         '<= 60, nesting <= 5) over a fixed 4-class schema (1:1, 1:M, reflexive with phrases, association class) on random '
         'initial populations (0-6 instances per class, random links, loaded as SQL text) with random keyword arguments; every '
         '8th program belongs to the arithmetic family (half of its integer literals beyond 2**53, up to 2**70, both signs; '
-        'attribute values and parameters likewise); programs on which the reference semantics reports an error or runs out of '
-        'fuel are outside the domain and dropped (counted in the distribution); a case is non-trivial when the program '
+        'attribute values and parameters likewise; `%` with dividends and divisors of either sign; 4 % of its divisors are zero, '
+        'where the expected outcome is ZeroDivisionError); elsewhere 15 % of the `%` sites take operands of either sign; programs on which the reference semantics reports an error or runs out of '
+        'fuel are outside the domain and dropped (counted in the distribution; a run in which any program ran out of fuel is flagged); a case is non-trivial when the program '
         'executed a loop body or a where clause with mixed outcomes and changed the population or returned a value; '
         'distinct = distinct (program text, population)')
 EXHAUSTIVE = {'quick': False, 'thorough': False}
-ASSUMPTIONS = ['programs are type-correct, terminating and error-free under the reference semantics (membership decided by Spec)',
+ASSUMPTIONS = ['programs are type-correct, terminating and error-free (apart from division by zero, which is compared) under the reference semantics (membership decided by Spec)',
                'reals, events, index access, set operators and referential-attribute access are not generated',
                'the four classes / five CREATE ROP statements of harness/gen_oal_prog.py are the schema of every case']
 TRUSTED_EXTRA = ['bridgepoint.oal.parse is used to parse the generated text for BOTH sides (parser properties are C07/C08/C13)',
@@ -39,6 +43,7 @@ CASE_TIMEOUT_S = 10
 BUDGET_S = {'quick': 200, 'thorough': 2400}
 SEARCH_S = {'quick': 60, 'thorough': 300}
 FUEL = 400
+DIV_BY_ZERO = 'division by zero'        # the message of Spec's `binop` for `/` and `%` with a zero divisor
 
 _CTX = None
 _xtuml = None
@@ -77,6 +82,9 @@ def install_tracer(interpret, oal):
             tr['cond'][id(node.expression)] = name[:-4].lower()
         elif isinstance(node, where_parents):
             tr['cond'][id(node.where_clause)] = 'where'
+        if isinstance(node, oal.BinaryOperationNode) and node.operator == '%':
+            tr['modops'][id(node.left)] = 'dividend'
+            tr['modops'][id(node.right)] = 'divisor'
         if isinstance(node, oal.ForEachNode):
             tr['loops'][id(node.block)] = 0
         if isinstance(node, oal.WhileNode):
@@ -85,6 +93,12 @@ def install_tracer(interpret, oal):
             tr['loops'][id(node)] += 1
         tr['exec'][name] = tr['exec'].get(name, 0) + 1
         r = orig(self, node, **kwargs)
+        role = tr['modops'].get(id(node))
+        if role is not None and isinstance(r, property):
+            # C04 programs have no derived attributes and no calls: reading an operand value twice has no effect
+            v = r.fget()
+            if isinstance(v, int) and not isinstance(v, bool) and v < 0:
+                tr['negmod'].add(role)
         kind = tr['cond'].get(id(node))
         if kind is not None and isinstance(node, valued) and isinstance(r, property):
             tr['outcomes'].setdefault((kind, id(node)), set()).add(bool(r.fget()))
@@ -169,6 +183,8 @@ def _spec_val(x, rank):
 
 def canon_spec(ans):
     """the driver's `(ok ret (state (nextId n) (pop ...) (links ...)))` in the form of `canon_impl`"""
+    if isinstance(ans, list) and len(ans) == 2 and ans[0] == 'error' and ans[1] == DIV_BY_ZERO:
+        return ['raised', 'ZeroDivisionError']
     if not isinstance(ans, list) or not ans or ans[0] != 'ok':
         return ['not-ok', G_to_plain(ans)]
     ret, state = ans[1], ans[2]
@@ -220,14 +236,17 @@ def make_case(ident, pop, prog, kwargs, up):
 def attach_expectations(ctx, cases):
     """ask the reference semantics; keep the cases of the domain"""
     if ctx.lean is None or ctx.lean.driver is None:
-        for c in cases:
-            yield c
-        return
+        raise RuntimeError('C04 needs the Lean driver: the reference semantics decides the domain and supplies the expected '
+                           'outcome of every case; without it nothing would be checked')
     answers = ctx.lean.run_driver([c['line'] for c in cases])
     for c, a in zip(cases, answers):
         ans = loads(a)
         if isinstance(ans, list) and ans and ans[0] == 'ok':
             c['expect'] = canon_spec(ans)
+            yield c
+        elif isinstance(ans, list) and len(ans) == 2 and ans[0] == 'error' and ans[1] == DIV_BY_ZERO:
+            c['expect'] = canon_spec(ans)
+            ctx.count('expected_zero_division_error')
             yield c
         elif isinstance(ans, list) and ans and ans[0] == 'error':
             ctx.count('dropped_outside_domain')
@@ -255,7 +274,7 @@ def generate(ctx, arithmetic_only=False):
         if arith and 'p' in kwargs and r.random() < 0.5:
             kwargs['p'] = r.choice(G.BIG_INTS)
         g = G.ProgGen(r.fork('prog'), max_stmts=r.randint(4, max_stmts), max_depth=r.randint(1, max_depth), params=params,
-                      big_ints=0.5 if arith else 0.04)
+                      big_ints=0.5 if arith else 0.04, neg_mod=0.8 if arith else 0.15, zero_div=0.04 if arith else 0.0)
         prog = g.gen_program()
         ctx.count('generated')
         if arith:
@@ -266,6 +285,18 @@ def generate(ctx, arithmetic_only=False):
             batch = []
     if batch:
         yield from attach_expectations(ctx, batch)
+    flag_out_of_fuel(ctx)
+
+
+def flag_out_of_fuel(ctx):
+    """generated programs terminate by construction: one that exhausts the fuel of the reference semantics was NOT checked, and
+    says that FUEL (or the generator's growth control) needs attention; the run is flagged, visibly"""
+    n = ctx.stats.get('dropped_out_of_fuel', 0)
+    if n:
+        ctx.stats['FLAG_unchecked_out_of_fuel (FUEL=%d too small or a generated program does not terminate)' % FUEL] = n
+        import sys
+        sys.stderr.write('%s: FLAG: %d generated programs exhausted FUEL=%d under the reference semantics and were not checked\n'
+                         % (PROP, n, FUEL))
 
 
 def case_from_json(c):
@@ -282,7 +313,7 @@ def run_impl(case):
     loader.input(_SCHEMA_SQL + G.population_sql(case['pop']), 'case')
     m = loader.build_metamodel(_xtuml.IntegerGenerator())
     before = sum(len(m.find_metaclass(c).storage) for c, _ in G.CLASSES)
-    tr = {'cond': {}, 'loops': {}, 'exec': {}, 'outcomes': {}}
+    tr = {'cond': {}, 'loops': {}, 'exec': {}, 'outcomes': {}, 'modops': {}, 'negmod': set()}
     _TR = tr
     raised = None
     try:
@@ -295,12 +326,22 @@ def run_impl(case):
     obs = canon_impl(m, ret)
     fails = []
     exp = case.get('expect')
+    if exp is None:
+        raise RuntimeError('case %r carries no expectation of the reference semantics' % (case.get('id'),))
+    # a `%` evaluated with a negative operand: a difference in such a run carries its own signature (the remainder
+    # convention), so that it can be told from every other difference
+    negmod = bool(tr['negmod'])
     if raised is not None:
         obs = ['raised', raised.split(':')[0]]
-        fails.append({'sig': 'exception:' + raised.split(':')[0],
-                      'what': 'the interpreter raised %s; the language defines the result %r\nprogram:\n%s\nkwargs: %r\npopulation: %r' % (
-                          raised, exp[1] if exp else None, case['text'], case['kwargs'], case['pop'])})
-    elif exp is not None and obs != exp:
+        if obs != exp:
+            fails.append({'sig': 'exception:' + raised.split(':')[0],
+                          'what': 'the interpreter raised %s; the language defines the result %r\nprogram:\n%s\nkwargs: %r\npopulation: %r' % (
+                              raised, exp[1], case['text'], case['kwargs'], case['pop'])})
+    elif exp[0] == 'raised':
+        fails.append({'sig': 'differs-from-spec:no-error',
+                      'what': 'returned %r; the language defines no value: %s\nprogram:\n%s\nkwargs: %r\npopulation: %r' % (
+                          obs[1], exp[1], case['text'], case['kwargs'], case['pop'])})
+    elif obs != exp:
         comp = 'shape'
         what = ''
         if len(obs) != len(exp):
@@ -321,7 +362,11 @@ def run_impl(case):
                     break
         elif obs[2] != exp[2]:
             comp, what = 'id-generator', 'next id %r, expected %r' % (obs[2], exp[2])
-        fails.append({'sig': 'differs-from-spec:' + comp,
+        sig = 'differs-from-spec:' + comp
+        if negmod and comp != 'dangling-links':
+            sig = 'mod-negative-operand'
+            what = 'a `%%` was evaluated with a negative %s; %s' % (' and a negative '.join(sorted(tr['negmod'])), what)
+        fails.append({'sig': sig,
                       'what': '%s\nprogram:\n%s\nkwargs: %r\npopulation: %r' % (what, case['text'], case['kwargs'], case['pop'])})
     stats = G.count_kinds(case['prog'])
     stats = {k: v for k, v in stats.items() if k != 'max_depth'}
@@ -332,6 +377,10 @@ def run_impl(case):
         if G.expr_is_literal(e):
             stats['cond_literal_only_' + kind] = stats.get('cond_literal_only_' + kind, 0) + 1
     stats['cond_sites'] = nconds
+    if negmod:
+        stats['mod_with_negative_operand'] = 1
+    if exp[0] == 'raised':
+        stats['ends_in_zero_division_error'] = 1
     reached = 0
     mixed_where = False
     for (kind, _), outs in tr['outcomes'].items():
